@@ -82,69 +82,9 @@ func c04Extra(c *Ctx, r *Report) {
 		r.Fail("C04-allbytes", "anchor readCompressed not found")
 		return
 	}
-	found := false
-	for _, l := range naturalLoops(fn) {
-		// the innermost loop that reads a byte from the remote and feeds the running checksum
-		var rd *ssa.Call
-		for b := range l.body {
-			for _, in := range b.Instrs {
-				if call, ok := in.(*ssa.Call); ok && callName(&call.Call) == "bufio.Reader.ReadByte" && strings.HasSuffix(pathOf(call.Call.Args[0]), ".rd") {
-					rd = call
-				}
-			}
-		}
-		if rd == nil {
-			continue
-		}
-		inner := true
-		for _, l2 := range naturalLoops(fn) {
-			if l2.header != l.header && l.body[l2.header] && len(l2.body) < len(l.body) {
-				for b := range l2.body {
-					for _, in := range b.Instrs {
-						if in == ssa.Instruction(rd) {
-							inner = false
-						}
-					}
-				}
-			}
-		}
-		if !inner {
-			continue
-		}
-		isByte := func(v ssa.Value) bool {
-			return dependsOn(v, func(x ssa.Value) bool {
-				ex, ok := x.(*ssa.Extract)
-				return ok && ex.Tuple == ssa.Value(rd) && ex.Index == 0
-			})
-		}
-		writes := func(b *ssa.BasicBlock) bool {
-			for _, in := range b.Instrs {
-				if call, ok := in.(*ssa.Call); ok {
-					n := callName(&call.Call)
-					if (n == "bytes.Buffer.WriteByte" || n == "bytes.Buffer.Write") && isByte(call.Call.Args[1]) {
-						return true
-					}
-				}
-			}
-			return false
-		}
-		hasWrite := false
-		for b := range l.body {
-			if writes(b) {
-				hasWrite = true
-			}
-		}
-		if !hasWrite {
-			continue
-		}
-		found = true
-		// every iteration that got a byte (did not leave through the error exit) stores it
-		r.Check("C04-allbytes", fnName(fn), "data block loop", c.pos(rd.Pos()), passesOnEveryIteration(l, writes),
-			"each iteration appends the byte it read", "an iteration of the data-block loop can complete without appending the byte it read (e.g. a cap at the declared size): the received length then can never exceed the declared one, so inserted blocks go unnoticed by the length check")
-	}
-	if !found {
-		r.Add("C04-allbytes", fnName(fn), "data block loop", c.pos(fn.Pos())).Bad("no loop that reads data bytes from the remote into the receive buffer found (unresolved)")
-	}
+	// decided over the static call tree below readCompressed (ip_j2.go): the loop may live in a helper
+	// that is handed the reader, the append in a method of the type that holds the buffer
+	j2AllBytesRule(c, r, "C04-allbytes", fn)
 }
 
 // c02Extra: the clean-up of Exchange does nothing that can wait for the peer without a bound - in
